@@ -4,8 +4,8 @@ import market_checks
 import runner_props
 
 PROP = "C06"
-LEAN_MODULES = ["PamsProps.C06", "PamsProps.C06R", "PamsProps.SimE2E", "PamsProps.SrcTick", "PamsProps.SrcFill", "PamsProps.SrcRunner", "PamsProps.SrcSimulator"]
-NAMESPACES = ["Pams.C06", "Pams.C06R", "Pams.C06", "Pams.C06", "Pams.C06", "Pams.C06", "Pams.C06"]
+LEAN_MODULES = ["PamsProps.C06", "PamsProps.C06R", "PamsProps.SimE2E", "PamsProps.SrcTick", "PamsProps.SrcFill", "PamsProps.SrcRunner", "PamsProps.SrcSimulator", "PamsProps.SrcGetters"]
+NAMESPACES = ["Pams.C06", "Pams.C06R", "Pams.C06", "Pams.C06", "Pams.C06", "Pams.C06", "Pams.C06", "Pams.C06"]
 DRIVERS = ["Market", "Runner", "Sim", "PyRun"]
 TRUSTED = [
     "series are modelled as current slot + list of past slots; Python's pre-allocated slots beyond `time` are unobservable through the getters (refusal is checked on every getter)",
@@ -35,7 +35,7 @@ def run(ctx, model_available=True):
     # (T2) the translated source of the market operations (clock step, storage growth, …) under the mini-Python
     # semantics, against CPython
     import py_checks
-    return py_checks.merge(res, ctx, ["marketop", "runner", "simdispatch"], n_each=100, model_available=model_available)
+    return py_checks.merge(res, ctx, ["marketop", "runner", "simdispatch", "getters"], n_each=100, model_available=model_available)
 
 
 def search(ctx, res):
